@@ -1,7 +1,7 @@
 #!/bin/bash
 # usage: tools/confirm2.sh <ID>   (round-2 seeds: /tmp/s2/<ID> worktree with the agent's change, /tmp/s2/out/<ID>/patch.diff)
 # Confirms: the patch is exactly the worktree's diff and applies to /repo's HEAD, the tree builds, the pinned suite passes.
-id="$1"; wt=/tmp/s2/$id; out=/tmp/s2/out/$id
+id="$1"; wt=${SEEDROOT:-/tmp/s2}/$id; out=${SEEDROOT:-/tmp/s2}/out/$id
 . /verif/env.sh; export CGO_LDFLAGS="-L/usr/lib/llvm-14/lib -lLLVM-14"
 cd $wt || exit 2
 git diff > /tmp/confirm2.$$.diff
